@@ -9,7 +9,7 @@ import EupsModel.Model.LockCmd
 
 * `{"m":"c09","op":"run","procs":[{"kind":"E"|"S","lp":null|n,"tries":n}..],"sched":[pid..]}` runs the schedule
   from the initial configuration with `LockR.step` and reports, per scheduled step, the call and its result class
-  (`LockR.obs`), the pairs violating `Mutex` after the step, and at the end the program counters, the directory flag
+  (`LockR.obs`; a schedule entry `-(i+1)` is a signal delivered to process `i`, `LockR.interrupt`), the pairs violating `Mutex` after the step, and at the end the program counters, the directory flag
   and the listing.
 * `{"m":"c09","op":"runpath",..,"ndirs":n}` the same over several stacks (`LockPathR.mstep`).
 * `{"m":"c09","op":"explore","procs":[..],"max":N}` enumerates the reachable states of the configuration (at most
@@ -45,7 +45,7 @@ def resStr : Res → String
 
 def pcStr (s : St) (i : Pid) : String :=
   match s.pc i with
-  | .hold => "locked" | .done => "done"
+  | .hold => "locked" | .done => "done" | .killed => "killed"
   | .failedAcq e => "failed:" ++ errStr e | .failedRel e => "failed_release:" ++ errStr e
   | _ => "pending:" ++ callStr (obs s i).1
 
@@ -57,16 +57,20 @@ def violators (n : Nat) (s : St) : List (Pid × Pid) :=
 
 def opRun (j : Json) : Except String Json := do
   let ps := (← (← jarr j "procs").mapM procOfJson).toArray
-  let sched ← (← jarr j "sched").mapM fun v => v.getNat?
+  -- a schedule entry i ≥ 0 is the next call of process i; an entry -(i+1) is a signal delivered to process i
+  let sched ← (← jarr j "sched").mapM fun v => v.getInt?
   let n := ps.size
   let mut s := initOf ps
   let mut steps : Array Json := #[]
-  for i in sched do
+  for e in sched do
+    let i := if e ≥ 0 then e.toNat else (-e - 1).toNat
     if i ≥ n then throw s!"pid {i} out of range"
-    let (c, r) := obs s i
-    s := step s i
+    let (cs, rs) :=
+      if e ≥ 0 then (let (c, r) := obs s i; (callStr c, resStr r))
+      else ("signal", if s.pc i == .hold then "delivered" else "ignored")
+    s := if e ≥ 0 then step s i else interrupt s i
     let v := violators n s
-    steps := steps.push (Json.arr #[toJson i, callStr c, resStr r,
+    steps := steps.push (Json.arr #[toJson i, cs, rs,
       Json.arr (v.map fun (a, b) => Json.arr #[toJson a, toJson b]).toArray])
   pure (Json.mkObj [
     ("steps", Json.arr steps),
@@ -87,7 +91,7 @@ def snapSt (ps : Array Proc) (x : Snap) : St :=
     pc := fun i => x.pcs.getD i .done }
 
 def terminal : PC → Bool
-  | .done | .failedAcq _ | .failedRel _ => true
+  | .done | .failedAcq _ | .failedRel _ | .killed => true
   | _ => false
 
 def snapStep (ps : Array Proc) (x : Snap) (p : Pid) : Snap :=
@@ -225,6 +229,7 @@ def pprocOfJson (j : Json) : Except String PProc := do
 
 def outStr : Out → String
   | .done => "done" | .failedAcq e => "failed:" ++ errStr e | .failedRel e => "failed_release:" ++ errStr e
+  | .killed => "killed"
 
 def ctlStr (S : PSt) (i : Pid) : String :=
   match S.ctl i with
@@ -242,7 +247,7 @@ def mviolators (n nd : Nat) (S : PSt) : List (Pid × Pid) :=
 
 def opRunPath (j : Json) : Except String Json := do
   let ps := (← (← jarr j "procs").mapM pprocOfJson).toArray
-  let sched ← (← jarr j "sched").mapM fun v => v.getNat?
+  let sched ← (← jarr j "sched").mapM fun v => v.getInt?
   let nd ← jnat j "ndirs"
   let n := ps.size
   let base := ps.map (·.base)
@@ -250,13 +255,17 @@ def opRunPath (j : Json) : Except String Json := do
     (fun i => match ps[i]? with | some p => p.path | none => [])
     (fun i => match ps[i]? with | some p => p.explicit | none => true)
   let mut steps : Array Json := #[]
-  for i in sched do
+  for e in sched do
+    let i := if e ≥ 0 then e.toNat else (-e - 1).toNat
     if i ≥ n then throw s!"pid {i} out of range"
-    let (d, c, r) := mobs S i
-    S := mstep S i
+    let (cs, rs) :=
+      if e ≥ 0 then
+        (let (d, c, r) := mobs S i
+         (match d with | some d => callStr c ++ "@" ++ toString d | none => callStr c, resStr r))
+      else ("signal", if inBodyM (S.ctl i) then "delivered" else "ignored")
+    S := if e ≥ 0 then mstep S i else mintr S i
     let v := mviolators n nd S
-    let cs := match d with | some d => callStr c ++ "@" ++ toString d | none => callStr c
-    steps := steps.push (Json.arr #[toJson i, cs, resStr r,
+    steps := steps.push (Json.arr #[toJson i, cs, rs,
       Json.arr (v.map fun (a, b) => Json.arr #[toJson a, toJson b]).toArray])
   let listing := (List.range nd).map fun d =>
     let s := S.comp d
